@@ -28,6 +28,8 @@ func VEvent(kind string, args ...interface{}) { vEvent(kind, args...) }
 func VTrack(p interface{}, name string)      { vTrack(p, name) }
 func VTrackElems(s interface{}, name string) { vTrackElems(s, name) }
 func VCertPoolSize(p *x509.CertPool) int      { return vCertPoolSize(p) }
+func VIssuedSigners() int                     { return vIssuedSigners() }
+func VIssuedLeaves() int                      { return vIssuedLeaves() }
 func VSchedFork(level int)                   { vSchedFork(level) }
 func VQuiesce()                              { vQuiesce() }
 func VSummarise(name string)                 { vSummarise(name) }
